@@ -479,9 +479,37 @@ func analyse(fd *ast.FuncDecl, mf *MethodFact) {
 			}
 		}
 	}
+	// rootedAtGlobal: the expression designates (part of) a package-level variable: state shared by every
+	// instance, so a write to it is a write whatever the receiver is
+	rootedAtGlobal := func(e ast.Expr) bool {
+		for {
+			switch v := e.(type) {
+			case *ast.Ident:
+				obj, ok := info.Uses[v].(*types.Var)
+				return ok && obj.Pkg() != nil && obj.Parent() == obj.Pkg().Scope()
+			case *ast.SelectorExpr:
+				e = v.X
+			case *ast.StarExpr:
+				e = v.X
+			case *ast.ParenExpr:
+				e = v.X
+			case *ast.IndexExpr:
+				e = v.X
+			case *ast.SliceExpr:
+				e = v.X
+			default:
+				return false
+			}
+		}
+	}
 	ast.Inspect(fd.Body, func(n ast.Node) bool {
 		switch v := n.(type) {
 		case *ast.AssignStmt:
+			for _, l := range v.Lhs {
+				if rootedAtGlobal(l) {
+					mf.Writes = true
+				}
+			}
 			// cfg, _ := r.config()  /  sc, _ := r.config()
 			if len(v.Rhs) == 1 {
 				if ce, ok := v.Rhs[0].(*ast.CallExpr); ok && selName(ce.Fun) == "config" {
@@ -504,6 +532,9 @@ func analyse(fd *ast.FuncDecl, mf *MethodFact) {
 			}
 		case *ast.IncDecStmt:
 			if _, isID := v.X.(*ast.Ident); !isID && rootedAtRecv(v.X) {
+				mf.Writes = true
+			}
+			if rootedAtGlobal(v.X) {
 				mf.Writes = true
 			}
 		case *ast.CallExpr:
